@@ -77,6 +77,7 @@ type SimReader struct {
 	// budget: calls allowed before "unbounded reads" (0 = unlimited)
 	CallBudget int
 	MaxPos     int
+	OnCall     func() // scheduler yield hook (cooperative tasks park at every Read)
 }
 
 // NewReader creates a SimReader delivering data under plan.
@@ -98,6 +99,9 @@ func (r *SimReader) Remaining() []byte { return r.data[r.pos:] }
 
 func (r *SimReader) Read(p []byte) (int, error) {
 	r.Calls++
+	if r.OnCall != nil {
+		r.OnCall()
+	}
 	if r.CallBudget > 0 && r.Calls > r.CallBudget {
 		// Break the loop: this is reported by the world as class unbounded-reads.
 		panic(fmt.Sprintf("sim: unbounded-reads on %s: %d Read calls for %d bytes", r.name, r.Calls, len(r.data)))
